@@ -471,6 +471,7 @@ static void op_wq(void)
  * work queue: threaded run with trace
  * ------------------------------------------------------------------------------------------- */
 typedef struct { int tid; uint64_t seed; int *seen; int nseen; int ok; } WARG;
+static int g_wq_extra = 0;     /* rarely used call modes in the threaded run: Complete while workers sleep, Update(NULL, NULL), abandoned blocks before Reset */
 
 static void *wq_worker(void *p)
 {
@@ -483,6 +484,7 @@ static void *wq_worker(void *p)
   while (*obj > 0) {
     a->seen[a->nseen++] = *obj;
     perturb();
+    if (g_wq_extra && trand() % 12 == 0 && L_WorkerUpdate(g_wq, NULL, NULL) != eslOK) { a->ok = 0; return NULL; }   /* the no-op call */
     if (L_WorkerUpdate(g_wq, obj, (void **) &obj) != eslOK || ! obj) { a->ok = 0; return NULL; }
   }
   if (L_WorkerUpdate(g_wq, obj, NULL) != eslOK) a->ok = 0;    /* hand the stop marker back */
@@ -515,6 +517,7 @@ static void op_wqrun(void)
   g_slow = (h_arg("slow") && h_arg("slow")[0] != '-') ? h_arg("slow")[0] : 0;
   memset(&tctx, 0, sizeof(tctx)); tctx.tid = 0; tctx.rng = seed * 0x9E3779B97F4A7C15ull + 1;
   g_tlen = 0; g_nevents = 0; if (g_trace) g_trace[0] = 0; g_lockerr = 0;
+  g_wq_extra = (int) h_argi("extra", 0);
   g_wq = esl_workqueue_Create(size);
   if (! lazy) for (i = 1; i <= B; i++) { g_blk[i] = 0; if (L_Init(g_wq, &g_blk[i]) != eslOK) ok = 0; }
   for (i = 0; i < W; i++) {
@@ -528,6 +531,8 @@ static void op_wqrun(void)
   for (i = 1; ok && i <= M; i++) {
     *obj = i;
     perturb();
+    if (g_wq_extra && trand() % 10 == 0 && L_Complete(g_wq) != eslOK) ok = 0;                 /* wakes every sleeping worker: they must go back to sleep */
+    if (g_wq_extra && trand() % 10 == 1 && L_ReaderUpdate(g_wq, NULL, NULL) != eslOK) ok = 0; /* the no-op call */
     if (L_ReaderUpdate(g_wq, obj, (void **) &obj) != eslOK || ! obj) ok = 0;
   }
   for (k = 1; ok && k <= W; k++) {
@@ -551,6 +556,13 @@ static void op_wqrun(void)
     int rc = g_wq->readerQueueCnt, wc = g_wq->workerQueueCnt, pend = g_wq->pendingWorkers;
     int seenb[64]; void *o = NULL;
     memset(seenb, 0, sizeof(seenb));
+    if (g_wq_extra) {      /* abandoned work: blocks left in the worker queue with nobody to take them; Reset must bring every one back, in order */
+      int t = g_wq_extra; void *o2 = NULL;
+      while (t-- > 0 && g_wq->readerQueueCnt > 0) {
+        if (L_ReaderUpdate(g_wq, NULL, &o2) != eslOK || ! o2) break;
+        if (L_ReaderUpdate(g_wq, o2, NULL) != eslOK) break;
+      }
+    }
     L_Complete(g_wq);
     L_Reset(g_wq);
     while (L_Remove(g_wq, &o) == eslOK) {
